@@ -165,7 +165,37 @@ example : fmTl 20 7 0 (fmVolAdd true 15) = 22 ∧ fmTl 20 7 0 (fmVolAdd true 0) 
     fmTl 20 0 0 (fmVolAdd true 0) = 20 ∧ fmTl 100 7 0 (fmVolAdd false 200) = 127 ∧
     psgAtt true 16 0x10 = 0 ∧ psgAtt true 15 0x10 = 0 ∧ psgAtt true 8 0x1c = 15 ∧ psgAtt false 41 0x10 = 14 := by decide
 
+/-! ### the known finding `short-note`, exhibited in the model -/
+/-- FM channel A: `T255 r(1 tick) note 40 (on 1, off 3) r(4 ticks)` -/
+def shortNoteSong : Song :=
+  { tracks := [(0, [⟨ev_TEMPO, 255, 0, 0⟩, ⟨ev_REST, 0, 0, 1⟩, ⟨ev_NOTE, 40, 1, 3⟩, ⟨ev_REST, 0, 0, 4⟩])] }
+
+/-- **Counterexample to the key order (known finding `short-note`).**  At T255 update 1 plays
+ticks 1 and 2: the note starts at tick 1 and its on-time ends at tick 2.  The second call of
+`play_step` (sample 735) writes to the key register of channel A: key-off (new note), key-off
+(end of the on-time), and only then the deferred key-on; nothing is written to the key register
+in the next three calls (samples 882, 1470, 1764), the key-off comes with the following rest at
+sample 2205 — the 1-tick note sounds for two updates, through its own off-time.  Replayed on the
+real code by the corpus of checks/c07.py. -/
+theorem C07_short_note_counterexample :
+    let d : Data := { ins := [] }
+    tempoStep 1 255 = (2, 1) ∧
+    (before d shortNoteSong 1).2.1 = 735 ∧
+    keyData (playStep d shortNoteSong (before d shortNoteSong 1).1).2.1 = [0, 0, 0xf0] ∧
+    keyData (playStep d shortNoteSong (before d shortNoteSong 2).1).2.1 = [] ∧
+    keyData (playStep d shortNoteSong (before d shortNoteSong 3).1).2.1 = [] ∧
+    keyData (playStep d shortNoteSong (before d shortNoteSong 4).1).2.1 = [] ∧
+    (before d shortNoteSong 5).2.1 = 2205 ∧
+    keyData (playStep d shortNoteSong (before d shortNoteSong 5).1).2.1 = [0] := by
+  decide +kernel
+
 /-! ### the full statement (not proved; decided per export by the schedule oracle) -/
+/-- no keyed note ends inside the update it starts in: an update plays at most two ticks
+(`C07_tempo_step_le_two`), so an on-time of at least two ticks suffices; this is the exclusion of
+the known finding `short-note` -/
+def NoShortNote (song : Song) : Prop :=
+  ∀ id r e, (id, r) ∈ song.tracks → e ∈ r → e.type = ev_NOTE → e.on ≥ 2
+
 /-- instruments as the schedule spec sees them agree with the driver's data: for every FM
 instrument of the table the driver data carries its levels, algorithm and transpose -/
 def InsAgree (d : Data) (t : Schedule.InsTab) : Prop :=
@@ -176,13 +206,12 @@ def InsAgree (d : Data) (t : Schedule.InsTab) : Prop :=
 
 /-- Every valid plain-subset song exports, the exported file parses, and the schedule oracle
 (key-on / key-off updates, pitch and attenuation at each key-on, extent and loop marker) finds
-no deviation.  The extra hypothesis that would be needed today is the exclusion of the known
-finding `short-note` (notes ending inside the update they start in, only possible at more than
-one tick per update); the missing proof steps are `tick_delivery` (Player ↔ `perf`, from the C04
+no deviation.  `NoShortNote` excludes the known finding `short-note` (a note ending inside
+the update it starts in); the missing proof steps are `tick_delivery` (Player ↔ `perf`, from the C04
 refinement), the per-channel write lemmas and the loop-count lemma of `export_extent`. -/
 def C07_full_statement : Prop :=
   ∀ (d : Data) (song : Song) (tags : Vgm.Tags) (t : Schedule.InsTab),
-    InsAgree d t →
+    InsAgree d t → NoShortNote song →
     (∀ id r, (id, r) ∈ song.tracks → id < 16 → ∃ items, Expand.perf song r = .ok items) →
     ∃ bytes info v, exportVgm d song tags = .ok bytes ∧ VgmSpec.analyse bytes = .ok info ∧
       Schedule.judgeLog song t info = .ok v ∧ v.fail = none
